@@ -32,6 +32,9 @@ Proof. unfold emit. intros X; injection X as <- <-. auto. Qed.
 Lemma nothing_inv d es d' : nothing d = Ok (es, d') -> es = [] /\ d' = d.
 Proof. unfold nothing. intros X; injection X as <- <-. auto. Qed.
 
+Lemma firstn_In' {A} (x : A) : forall n l, In x (firstn n l) -> In x l.
+Proof. induction n as [|n IH]; intros [|y l] H; simpl in H; try contradiction. destruct H as [->|H]; [left; reflexivity | right; apply IH; exact H]. Qed.
+
 Section Good.
   Variable root : node.
   Variable subf : done -> node -> cres.
@@ -69,6 +72,10 @@ Section Good.
     all: try (go; repeat rewrite ?Forall_app; repeat split; try (constructor; [apply OWN; reflexivity | constructor]);
               try (eapply SEQ; [|eassumption]; auto); try (constructor; [exact I | constructor]); try constructor; fail).
     (* the kinds whose _construct picks children by position *)
+    - (* KDict *)
+      destruct subs as [|kt vals]; [go; constructor; [apply OWN; reflexivity | constructor]|].
+      go. apply Forall_app. split; [constructor; [apply OWN; reflexivity | constructor]|].
+      eapply SEQ; [|eassumption]. intros y [<-|Hy]; [left; reflexivity | right; eapply firstn_In'; eauto].
     - (* KDefaultDict *)
       destruct subs as [|a [|b [|? ?]]]; try (apply nothing_inv in H as [-> _]; constructor).
       go. repeat rewrite ?Forall_app. repeat split;
